@@ -879,6 +879,72 @@ func constLines() {
 	}
 }
 
+// payloads at the extremes of compressibility × every codec × both framings, on the real code only.
+// framing: batch | wrap0 | wrap1; shape: 0 one byte repeated, 1 short pattern repeated, 2 random, 3 zeros with
+// a few random bytes; the payload of `size` bytes is split over `n` records / inner messages.
+func extremeCase(framing string, codec, level, shape, size, n, inKey int, seed uint64) {
+	line := fmt.Sprintf("xcase %s %d %d %d %d %d %d %d", framing, codec, level, shape, size, n, inKey, seed)
+	run.Count(fmt.Sprintf("extreme:%s:codec%d:shape%d", framing, codec, shape))
+	run.Safe(line, func() string {
+		payload := sarama.VerifPayload(shape, size, hlib.NewRand(seed))
+		var wire int
+		var diff string
+		switch framing {
+		case "batch":
+			wire, diff = sarama.VerifExtremeBatch(int8(codec), level, payload, n, inKey == 1)
+		case "wrap0":
+			wire, diff = sarama.VerifExtremeWrapper(0, int8(codec), level, payload, n)
+		case "wrap1":
+			wire, diff = sarama.VerifExtremeWrapper(1, int8(codec), level, payload, n)
+		default:
+			return "bad-framing"
+		}
+		run.Case(fmt.Sprintf("%s: %d payload bytes -> %d on the wire", line, size, wire))
+		run.Nontrivial(line)
+		if wire > 0 && size/wire >= 200 {
+			run.Count("extreme:ratio>=200")
+		}
+		if diff != "" {
+			ioFail(fmt.Sprintf("compressed-roundtrip-differs:%s:codec%d", framing, codec), line, diff)
+		}
+		return ""
+	})
+}
+
+func extremes(r *hlib.Rand, thorough bool) {
+	type cfg struct{ codec, level int }
+	cfgs := []cfg{{0, sarama.CompressionLevelDefault}, {1, sarama.CompressionLevelDefault}, {1, 1}, {1, 9}, {2, sarama.CompressionLevelDefault},
+		{3, sarama.CompressionLevelDefault}, {4, sarama.CompressionLevelDefault}}
+	if thorough {
+		for lv := 2; lv <= 8; lv++ {
+			cfgs = append(cfgs, cfg{1, lv})
+		}
+	}
+	type shape struct{ shape, size, n int }
+	shapes := []shape{
+		{0, 32 << 10, 1}, {0, 256 << 10, 1}, {0, 1000 << 10, 1}, // long runs of one byte in one record
+		{0, 300 << 10, 3000},                                  // … spread over many small records
+		{1, 128 << 10, 1}, {1, 128 << 10, 500},                // short repeated pattern
+		{3, 512 << 10, 2},                                     // almost-constant
+		{2, 64 << 10, 1}, {2, 64 << 10, 700},                  // incompressible
+		{0, 1, 1}, {2, 40, 1},                                 // tiny
+	}
+	if thorough {
+		for i := 0; i < 12; i++ {
+			shapes = append(shapes, shape{r.Intn(4), 1 + r.Intn(900<<10), 1 + r.Intn(2000)})
+		}
+	}
+	for _, c := range cfgs {
+		for _, sh := range shapes {
+			extremeCase("batch", c.codec, c.level, sh.shape, sh.size, sh.n, r.Intn(2), r.U64())
+			if c.codec != 0 {
+				extremeCase("wrap0", c.codec, c.level, sh.shape, sh.size, sh.n, 0, r.U64())
+				extremeCase("wrap1", c.codec, c.level, sh.shape, sh.size, sh.n, 0, r.U64())
+			}
+		}
+	}
+}
+
 // prefixes of valid encodings: partial trailing blocks / batches, short records (correspondence only)
 func truncations(r *hlib.Rand) {
 	for i := 0; i < 40; i++ {
@@ -995,6 +1061,11 @@ func replayLine(l string) {
 		if len(f) == 2 {
 			run.Emit(l, sarama.VerifRecordsKind(unhex(f[1])))
 		}
+	case "xcase":
+		if len(f) == 9 {
+			seed, _ := strconv.ParseUint(f[8], 10, 64)
+			extremeCase(f[1], atoi(f[2]), atoi(f[3]), atoi(f[4]), atoi(f[5]), atoi(f[6]), atoi(f[7]), seed)
+		}
 	case "const":
 		if len(f) == 2 {
 			run.Emit(l, strconv.Itoa(sarama.VerifConst(f[1])))
@@ -1102,6 +1173,7 @@ func main() {
 	// the other guard of getArrayLength on the record count: 2·MaxUint16
 	batchCase(denseBatch(r.Fork(), 0, 131070, false))
 	batchCase(denseBatch(r.Fork(), 0, 131071, false))
+	extremes(r.Fork(), run.Tier == "thorough")
 	run.Safe("truncation stream", func() string { truncations(r); return "" })
 	constLines()
 	// every codec × level grid on one batch shape
